@@ -759,13 +759,22 @@ def finalize(ctx, tier, seed):
         assert c.get(f"{part}:cases", 0) > 0, part
     for kind in ("class", "extreme", "boundary"):
         assert c.get(f"sus:answers:{kind}", 0) > 0, kind
-    assert c.get("sus:exact-expectations-verified", 0) > 0
-    for f in ("sus:unequal-counts", "sus:non-identity-shuffle", "tiled:remainder", "tiled:two-whole-tiles",
-              "tiled:no-whole-tile", "axis:int-form", "axis:ndim3:naxes2", "axis:ndim2:naxes1", "axis:ndim1:naxes0",
-              "outx:two-improving-passes", "outx:local-minimum-with-repeats"):
+    for zone in ("edge", "interior"):
+        assert c.get(f"sus:answers:zone:{zone}", 0) > 0, zone
+    for f in ("axis:int-form", "axis:ndim3:naxes2", "axis:ndim2:naxes1", "axis:ndim1:naxes0", "tiled:remainder",
+              "tiled:two-whole-tiles", "tiled:no-whole-tile"):
         assert f in ctx.flags, f
-    assert len(ctx.outcomes) > 100, len(ctx.outcomes)
-    assert len(ctx.nontrivial) > 100, len(ctx.nontrivial)
+    # the guards below say "a clean verdict is not vacuous"; they depend on executions that passed the oracle, so they
+    # are only demanded when nothing of that function was reported (a run with new violations is not a clean verdict)
+    bad = lambda prefix: any(s.startswith(prefix) for s in ctx.violations)
+    if not any(s.startswith(SUS) and not s.endswith(EDGE) for s in ctx.violations):
+        assert c.get("sus:exact-expectations-verified", 0) > 0
+        assert "sus:unequal-counts" in ctx.flags and "sus:non-identity-shuffle" in ctx.flags
+    if not bad(OUT):
+        assert "outx:two-improving-passes" in ctx.flags and "outx:local-minimum-with-repeats" in ctx.flags
+    if not ctx.violations:
+        assert len(ctx.outcomes) > 100, len(ctx.outcomes)
+        assert len(ctx.nontrivial) > 100, len(ctx.nontrivial)
 
 
 def replay(case, ctx):
